@@ -108,6 +108,9 @@ func newCreateTable(ct sql.CreateTableStmt) (*Schema, error) {
 	// own, which finally becomes the primary key.
 	pkDeferred := false
 	withoutRowidPK := func(cols []IndexColumn, deferred bool) {
+		// a key column that repeats an earlier one is dropped:
+		// PRIMARY KEY (a, b, a) is PRIMARY KEY (a, b)
+		cols = dropRepeatedColumns(cols)
 		dup := false
 		if ind := st.findIndex(cols); ind != nil {
 			// an earlier UNIQUE index on these columns becomes the primary
@@ -329,6 +332,24 @@ func (st *Schema) setPK(cols []IndexColumn) {
 			}
 		}
 	}
+}
+
+// dropRepeatedColumns removes the columns which repeat an earlier column
+// with the same collation (in any sort order).
+func dropRepeatedColumns(cols []IndexColumn) []IndexColumn {
+	var res []IndexColumn
+	for _, c := range cols {
+		repeat := false
+		for _, r := range res {
+			if sameIndexColumns([]IndexColumn{r}, []IndexColumn{c}) {
+				repeat = true
+			}
+		}
+		if !repeat {
+			res = append(res, c)
+		}
+	}
+	return res
 }
 
 // sameIndexColumns is true if SQLite would consider an automatic index on
